@@ -25,6 +25,12 @@ def ns (inp : Json) : R Res := do
     | "assert" =>
       let r := s.assert (s2l (← asStr a[1]!))
       s := r.1; res := res.push (Json.str (l2s r.2))
+    | "assertNested" =>
+      -- the second caller ran the whole function while the first was in front of a lock: second, then first
+      let e1 := s2l (← asStr a[1]!); let e2 := s2l (← asStr a[2]!)
+      let r2 := s.assert e2
+      let r1 := r2.1.assert e1
+      s := r1.1; res := res.push (Json.arr #[Json.str (l2s r1.2), Json.str (l2s r2.2), Json.bool true])
     | "compact" =>
       match s.compact (s2l (← asStr a[1]!)) with
       | some (s', c) => s := s'; res := res.push (Json.str (l2s c))
